@@ -130,7 +130,10 @@ def check_C06(run):
                        "castling rights present or ep state or clocks > 0")
     games = P["games"]
     inner = ["1k6/8/8/8/8/8/8/1K1R3R w D - 0 1", "1k6/8/8/8/8/8/8/R2RK3 w D - 4 9", "r2rk3/8/8/8/8/8/8/4K3 b d - 0 1",
-             "1k1r3r/8/8/8/8/8/8/1K1R3R b Dd - 0 1", "r1r1k1r1/8/8/8/8/8/8/R1R1K1RR w GCgc - 2 5"]
+             "1k1r3r/8/8/8/8/8/8/1K1R3R b Dd - 0 1", "r1r1k1r1/8/8/8/8/8/8/R1R1K1RR w GCgc - 2 5",
+             # a rook of the OTHER colour on the home rank outside the castling rook
+             "R2rk3/8/8/8/8/8/8/4K3 b d - 0 1", "4k1rR/8/8/8/8/8/8/4K3 b g - 0 1", "R1r1k1rR/8/8/8/8/8/8/4K3 b gc - 3 9",
+             "Rr2k2r/8/8/8/8/8/8/4K3 b kb - 0 1", "r3k2r/8/8/8/8/8/8/qR2K1Rq w GB - 0 1", "Q2rk3/8/8/8/8/8/8/3RK2q w Dd - 0 1"]
     reqs = []
     for g in games:
         toks = g["moves"].split(" ")
@@ -757,7 +760,7 @@ def check_C17(run):
         p = f.split(" ")
         passed = " ".join([p[0], "b" if p[1] == "w" else "w", p[2], "-", p[4], p[5]])
         noep = " ".join([p[0], p[1], p[2], "-", p[4], p[5]])
-        pert = " ".join([p[0], p[1], "-", "-", str(rng.randrange(0, 90)), str(rng.randrange(1, 300))])
+        pert = " ".join([p[0], p[1], "-", "-", str(rng.choice([rng.randrange(0, 90), 99, 100, 101, 150, 1000])), str(rng.randrange(1, 300))])
         reqs += [f"eval\t{f}", f"eval\t{noep}", f"eval\t{passed}", f"eval\t{G.mirror_fen(f)}", f"eval\t{pert}"]
         meta.append(f)
     impl, _ = vlib.run_impl_par(reqs)
